@@ -836,6 +836,72 @@ func ruleKVCarriedTogether(c *Ctx, r *R) {
 			}
 		}
 	}
+	// the pair carried as ONE struct variable (ins := insertion{key, value, afterK}; ...; ins = sep): a whole-struct assignment
+	// updates key and value together by construction; field-wise updates must set every K/V-typed field in the same block
+	for _, fn := range c.funcsOfPkg(treeRel) {
+		if fn.Blocks == nil {
+			continue
+		}
+		for _, b := range fn.Blocks {
+			for _, in := range b.Instrs {
+				al, ok := in.(*ssa.Alloc)
+				if !ok {
+					continue
+				}
+				st, ok := al.Type().(*types.Pointer).Elem().Underlying().(*types.Struct)
+				if !ok {
+					continue
+				}
+				var kvFields []int
+				for i := 0; i < st.NumFields(); i++ {
+					if _, isTP := st.Field(i).Type().(*types.TypeParam); isTP {
+						kvFields = append(kvFields, i)
+					}
+				}
+				if len(kvFields) < 2 {
+					continue
+				}
+				whole := 0
+				perBlock := map[*ssa.BasicBlock]map[int]bool{}
+				for _, ref := range refsOf(al) {
+					switch x := ref.(type) {
+					case *ssa.Store:
+						if x.Addr == ssa.Value(al) {
+							whole++
+						}
+					case *ssa.FieldAddr:
+						for _, r2 := range refsOf(x) {
+							if s2, ok := r2.(*ssa.Store); ok && s2.Addr == ssa.Value(x) {
+								if perBlock[s2.Block()] == nil {
+									perBlock[s2.Block()] = map[int]bool{}
+								}
+								perBlock[s2.Block()][x.Field] = true
+							}
+						}
+					}
+				}
+				if whole+len(perBlock) < 2 {
+					continue // set once: not carried
+				}
+				n++
+				good, why := true, ""
+				for blk, fs := range perBlock {
+					some, all := false, true
+					for _, f := range kvFields {
+						if fs[f] {
+							some = true
+						} else {
+							all = false
+						}
+					}
+					if some && !all {
+						good, why = false, "block "+itoa(blk.Index)+" sets only some of its key/value fields"
+					}
+				}
+				r.ok(good, c.nameOf(fn)+"|carried-struct:"+al.Comment+"#"+itoa(n), al.Pos(), "the loop carries key and value in one struct variable but updates only one of the fields ("+why+"): the entry re-inserted on the next level pairs a key with another key's value")
+			}
+		}
+	}
 	if n == 0 {
 		r.undecided("tree|carried-pairs", token.NoPos, "no loop-carried key/value pair found")
 	}
@@ -1261,11 +1327,14 @@ var _ = late(func() {
 		Run:    func(c *Ctx, r *R) { ruleBgCancellable(c, r, "parallel.MapStream") }})
 	properties["C09"].Rules = append(properties["C09"].Rules, &Rule{ID: "C09.bg-cancellable", Floor: 3,
 		Clause: "same rule as C11.bg-cancellable / C12.bg-cancellable: the goroutines that own a source (BatchFunc's reader, Merge's workers) can be interrupted wherever they block - a reader stuck on a bare send never reaches its deferred Close of the source, and Close of the returned stream never returns",
-		Run:    func(c *Ctx, r *R) { ruleBgCancellable(c, r, "stream.BatchFunc"); ruleBgCancellable(c, r, "stream.Merge") }})
+		Run: func(c *Ctx, r *R) {
+			ruleBgCancellable(c, r, "stream.BatchFunc")
+			ruleBgCancellable(c, r, "stream.Merge")
+		}})
 })
 
 var _ = late(func() {
-	properties["C11"].Rules = append(properties["C11"].Rules, &Rule{ID: "C11.no-discarded-recv", Floor: 2,
+	properties["C11"].Rules = append(properties["C11"].Rules, &Rule{ID: "C11.no-discarded-recv", Floor: 1,
 		Clause: "same rule as C08.no-discarded-pull, for batchStream.Next: a batch taken off batchC is returned on every path that follows (the batcher considers it delivered as soon as the send completes); a context test placed after the receive throws a delivered batch away",
 		Run:    subRule(func(c *Ctx, r *R) { ruleNoDiscardedPull(c, r, "stream") }, "batchStream")})
 })
